@@ -40,6 +40,11 @@ Theorem C18_course_nonempty : forall sizes rooms, housed_desc sizes rooms = true
   forall c, c < length sizes -> 0 < nth c sizes 0 -> nth c (possible sizes rooms) [] <> [].
 Proof. exact possible_nonempty. Qed.
 
+(* io::rooms::read (RoomsModel.kinds_read, compared exactly with the code): the kinds are only reordered, and the room list handed to the
+   solver contains, for every kind of the file, exactly `quantity` rooms of its capacity *)
+Theorem C18_rooms_file : forall raw, Permutation (kinds_read raw) raw /\ Permutation (rooms_of_kinds (kinds_read raw)) (rooms_of_kinds raw).
+Proof. intros raw. split; [apply kinds_read_perm|apply rooms_read_perm]. Qed.
+
 (* room kinds: a listed kind name always belongs to a kind with positive quantity whose capacity is one of the listed sizes *)
 Theorem C18_kinds : forall ks sizes c n,
   In n (nth c (kind_names ks sizes) []) ->
@@ -60,10 +65,11 @@ Qed.
 Example C18_example : dedup (listed [5;3;0] [6;5;3] 0) = [6; 5] /\ dedup (listed [5;3;0] [6;5;3] 1) = [6; 5; 3] /\ listed [5;3;0] [6;5;3] 2 <> [].
 Proof. vm_compute. repeat split; discriminate. Qed.
 
-Check C18. Check C18_nonempty. Check C18_kinds. Check C18_course_level. Check C18_rooms_permuted. Check C18_course_nonempty.
+Check C18_rooms_file. Check C18. Check C18_nonempty. Check C18_kinds. Check C18_course_level. Check C18_rooms_permuted. Check C18_course_nonempty.
 Print Assumptions C18.
 Print Assumptions C18_nonempty.
 Print Assumptions C18_kinds.
+Print Assumptions C18_rooms_file.
 Print Assumptions C18_course_level.
 Print Assumptions C18_rooms_permuted.
 Print Assumptions C18_course_nonempty.
